@@ -212,7 +212,7 @@ def check_wire_types(ck, repo: Repo, directions=DIRECTIONS):
                 n += 1
                 ck.ob(f"{scalar}.{d}: `return {unparse(r.value)[:60]}` yields a {wire}", ts <= allowed, f, r,
                       detail=f"syntactic types {sorted(ts)}; wire type {wire}")
-    ck.count("scalar_success_returns", n, 15)
+    ck.count("scalar_success_returns", n, 5 * len(directions))
 
 
 def check_guards(ck, repo: Repo, directions=DIRECTIONS):
